@@ -250,3 +250,11 @@ theorem from_utf8_unchecked_is (b : Bytes) (s : St) :
   simp only [bind_ap, str.from_utf8_unchecked, HasBytes.bytes, pure_ap, call_norm]
   cases GenRepr.LeanString.from_str_ref ⟨b⟩ s <;> rfl
 end LS.GenTie
+
+namespace LS.GenTie
+/-- `Default::default()` is `new()`: the empty inline value -/
+theorem default_step (s : St) : GenRepr.LeanString.default s = .next (.inl inlEmpty) s := by
+  unfold GenRepr.LeanString.default
+  rw [bind_ap, call_norm, ls_new_step]
+  rfl
+end LS.GenTie
